@@ -424,3 +424,50 @@ B('C19', 'grammar nests minus to the right', 'integral/parser.py',
 B('C19', 'right operand of equal priority not bracketed', 'integral/expr.py',
   '            if b.priority() <= op_priority[self.op]:\n                s2 = "(%s)" % s2', '            if b.priority() < op_priority[self.op]:\n                s2 = "(%s)" % s2', 'C19.E2', 'right-operand')
 N('C19', 'priority table reordered', 'integral/expr.py', '"+": 65, "-": 65, "*": 70, "/": 70,', '"*": 70, "/": 70, "+": 65, "-": 65,')
+
+# ------------------------------------------------------------------------------------------- rules added after the first seeded round
+B('C01', 'substitution instantiates term by term', THM,
+  '            for t in th.hyps + (th.prop,):\n                for v in t.get_svars():\n                    if v.name in inst:\n                        v.T.match_incr(inst[v.name].get_type(), inst.tyinst)\n',
+  '', 'C01.K8', 'one-type-instantiation')
+B('C01', 'subst_bound memo without binder depth', TERM,
+  '            if (id_s, n) in cache:\n                return cache[(id_s, n)]', '            if id_s in cache:\n                return cache[id_s]', 'C01.K9', 'subst_bound')
+B('C03', 'subst_bound memo stores without binder depth', TERM,
+  '                    res = Comb(fun_s, arg_s)\n                cache[(id_s, n)] = res', '                    res = Comb(fun_s, arg_s)\n                cache[id_s] = res', 'C03.I5', 'subst_bound')
+N('C03', 'subst memo key through a local', TERM,
+  '            elif t._id in cache:\n                return cache[t._id]', '            elif t._id in cache:\n                key = t._id\n                return cache[key]')
+B('C02', 'negative identifiers resolved from the end', 'kernel/proof.py',
+  '        if any(i < 0 for i in id.id):\n            # A negative number would index from the end of the proof\n            raise ProofStateException\n', '', 'C02.P8', 'find_item')
+B('C02', 'empty line may state a theorem', THEORY,
+  '            if seq.th is not None:\n                raise CheckProofException("empty line cannot state a theorem")\n', '', 'C02.P9', 'empty-rule')
+N('C02', 'negative identifier test with all()', 'kernel/proof.py',
+  '        if any(i < 0 for i in id.id):', '        if not all(i >= 0 for i in id.id):')
+B('C04', 'apply_theorem evaluation always normalises', 'logic/logic.py',
+  '        if matcher.is_fo_pattern(th.prop):\n            As, C = th.prop.subst(inst).strip_implies()\n        else:\n            As, C = th.prop.subst_norm(inst).strip_implies()',
+  '        As, C = th.prop.subst_norm(inst).strip_implies()', 'C04.M6', 'apply_theorem')
+N('C04', 'apply_theorem evaluation with negated test', 'logic/logic.py',
+  '        if matcher.is_fo_pattern(th.prop):\n            As, C = th.prop.subst(inst).strip_implies()\n        else:\n            As, C = th.prop.subst_norm(inst).strip_implies()',
+  '        if not matcher.is_fo_pattern(th.prop):\n            As, C = th.prop.subst_norm(inst).strip_implies()\n        else:\n            As, C = th.prop.subst(inst).strip_implies()')
+B('C05', 'real_eval evaluates under of_nat with real arithmetic', 'data/real.py',
+  "        elif t.is_comb('of_nat', 1):\n            return nat.nat_eval(t.arg)\n        elif t.is_comb('of_int', 1):\n            return integer.int_eval(t.arg)\n        elif t.is_plus():\n            return rec(t.arg1) + rec(t.arg)\n        elif t.is_minus():\n            return rec(t.arg1) - rec(t.arg)\n        elif t.is_uminus():\n            return -rec(t.arg)\n        elif t.is_times():\n            return rec(t.arg1) * rec(t.arg)\n        elif t.is_divides():\n            denom = rec(t.arg)\n            if denom == 0:\n                raise ConvException('real_eval: divide by zero')",
+  "        elif t.is_comb('of_nat', 1):\n            return rec(t.arg)\n        elif t.is_comb('of_int', 1):\n            return integer.int_eval(t.arg)\n        elif t.is_plus():\n            return rec(t.arg1) + rec(t.arg)\n        elif t.is_minus():\n            return rec(t.arg1) - rec(t.arg)\n        elif t.is_uminus():\n            return -rec(t.arg)\n        elif t.is_times():\n            return rec(t.arg1) * rec(t.arg)\n        elif t.is_divides():\n            denom = rec(t.arg)\n            if denom == 0:\n                raise ConvException('real_eval: divide by zero')",
+  'C05.T5', 'real_eval')
+B('C05', 'strict comparison decided with <=', 'data/real.py',
+  '        if goal.is_less():\n            assert lhs < rhs, "%f !< %f" % (lhs, rhs)', '        if goal.is_less():\n            assert lhs <= rhs, "%f !< %f" % (lhs, rhs)', 'C05.T6', 'RealCompareMacro.eval :: is_less')
+B('C05', 'disequality decided with ==', 'integral/inequality.py',
+  '        return ev(t.arg.arg1) != ev(t.arg.arg)', '        return ev(t.arg.arg1) == ev(t.arg.arg)', 'C05.T6', 'is_equals(t.arg)')
+B('C06', 'of_nat alias used for bound variables', Z3W,
+  '                if t.arg.is_var() and t.arg.name not in bound_names:', '                if t.arg.is_var():', 'C06.Z1', 'alias-only-for-free-variables')
+B('C06', 'exists branch does not register its variable', Z3W,
+  '            bound_names.add(nm)\n            v = Var(nm, t.arg.var_T)\n            z3_v = convert_const(nm, t.arg.var_T, ctx)\n            body = rec(t.arg.subst_bound(v))\n            if t.arg.var_T == NatType:\n                # Quantifiers over natural numbers range over non-negative integers\n                body = z3.And(z3_v >= 0, body)',
+  '            v = Var(nm, t.arg.var_T)\n            z3_v = convert_const(nm, t.arg.var_T, ctx)\n            body = rec(t.arg.subst_bound(v))\n            if t.arg.var_T == NatType:\n                # Quantifiers over natural numbers range over non-negative integers\n                body = z3.And(z3_v >= 0, body)',
+  'C06.Z1', 'alias-only-for-free-variables')
+B('C07', 'comprehension variable name not registered', 'syntax/pprint.py',
+  '            nm = name.get_variant_name(t.arg.var_name, var_names)\n            var_names.append(nm)\n\n            bind_var = Bound(nm, t.arg.var_T)\n            body_ast = helper(t.arg.body, [bind_var] + bd_vars)\n            var_names.remove(nm)\n\n            if hasattr(t.arg, "print_type"):\n                bind_var = ShowType(bind_var, get_ast_type(bind_var.T))\n\n            return Collect',
+  '            nm = name.get_variant_name(t.arg.var_name, var_names)\n\n            bind_var = Bound(nm, t.arg.var_T)\n            body_ast = helper(t.arg.body, [bind_var] + bd_vars)\n\n            if hasattr(t.arg, "print_type"):\n                bind_var = ShowType(bind_var, get_ast_type(bind_var.T))\n\n            return Collect',
+  'C07.W4', 'binder-name')
+B('C08', 'unify identifies variables of different kinds', INF,
+  '        elif T1.is_tvar() and T2.is_tvar() and T1.name == T2.name:\n            return\n\n        elif T1.is_stvar() and T2.is_stvar() and T1.name == T2.name:\n            return',
+  '        elif not T1.is_tconst() and not T2.is_tconst() and T1.name == T2.name:\n            return', 'C08.U5', 'noop-success')
+N('C08', 'unify same-kind shortcuts merged correctly', INF,
+  '        elif T1.is_tvar() and T2.is_tvar() and T1.name == T2.name:\n            return\n\n        elif T1.is_stvar() and T2.is_stvar() and T1.name == T2.name:\n            return',
+  '        elif (T1.is_tvar() and T2.is_tvar() or T1.is_stvar() and T2.is_stvar()) and T1.name == T2.name:\n            return')
